@@ -1,6 +1,7 @@
 import GeomV.C06.Model
 import GeomV.C06.Spec
 import GeomV.C06.Text
+import GeomV.C06.Cert
 import Std.Data.HashMap
 import GeomV.C17.Dec
 /-!
@@ -195,6 +196,9 @@ def judgeLine (line : String) : String :=
               | .ok mt, .ok o =>
                 if !treeEq mt t then s!"DIFF {cls} model-tree-differs {String.ofList txt}"
                 else if renderGeometry fmt o != txt then s!"DIFF {cls} model-text-differs want={String.ofList (renderGeometry fmt o)} got={String.ofList txt}"
+                -- the proved-sound certificate (C06_text_cert): number-text contract evaluated on exactly the
+                -- coordinates that occur + byte equality with the text-level model
+                else if !textCert fin fmt jsonPn g txt then s!"DIFF {cls} text-certificate-fails {String.ofList txt}"
                 else s!"OK {cls}"
               | .error e, _ => s!"DIFF {cls} model-errs-{errName e}-impl-encodes"
               | _, .error e => s!"DIFF {cls} model-errs-{errName e}-impl-encodes"
